@@ -241,6 +241,39 @@ def audit(ctx, vfiles, pinned_file):
     return problems, assumptions
 
 
+def coqchk(ctx, targets, timeout=3600):
+    """thorough tier: re-check the compiled property files and everything they depend on with the
+    independent checker, and read the axioms it reports for the whole context."""
+    mods = ["V." + t[:-3].replace("/", ".") for t in targets if t.endswith(".vo")]
+    t0 = time.time()
+    rc, out = sh(["timeout", str(timeout), "coqchk", "-o", "-silent", "-Q", ".", "V"] + mods, cwd=COQ)
+    info = {"modules": mods, "wall_s": round(time.time() - t0, 1)}
+    problems = []
+    if rc == 124:
+        info["result"] = "timed out after %d s (not counted as a violation; coqc's kernel check stands)" % timeout
+        ctx.coverage["coqchk"] = info
+        return problems
+    if rc != 0:
+        problems.append("coqchk failed: " + out[-800:])
+    m = re.search(r"\* Axioms:(.*?)\n\s*\n\* Constants/Inductives relying on type-in-type:(.*?)\n\s*\n\* Constants/Inductives relying on unsafe \(co\)fixpoints:(.*?)\n\s*\n\* Inductives whose positivity is assumed:(.*?)\n", out + "\n", re.S)
+    if not m:
+        if rc == 0:
+            problems.append("coqchk context summary not understood: " + out[-500:])
+    else:
+        axioms, tit, unsafe_fix, pos = [x.strip() for x in m.groups()]
+        info.update({"axioms": axioms, "type_in_type": tit, "unsafe_fixpoints": unsafe_fix, "assumed_positivity": pos})
+        ax = [a for a in re.findall(r"(?m)^\s*([A-Za-z0-9_.']+)\s*$", axioms) if a != "<none>"] if axioms != "<none>" else []
+        for a in ax:
+            if a not in ALLOWED_AXIOMS:
+                problems.append("context contains non-allow-listed axiom " + a)
+        for label, v in (("type-in-type", tit), ("unsafe fixpoints", unsafe_fix), ("assumed positivity", pos)):
+            if v != "<none>":
+                problems.append("%s used: %s" % (label, v[:200]))
+    info["result"] = "ok" if not problems else "problems"
+    ctx.coverage["coqchk"] = info
+    return problems
+
+
 # ---------------------------------------------------------------- Rust side
 
 def harness_build(ctx, binname, timeout=1500):
@@ -387,7 +420,7 @@ def finish(ctx, level="proof"):
 
 BASE_TRUSTED = [
     "Coq 8.16.1 kernel (coqc, full .vo build); vm_compute used for case evaluation and finite obligations; native_compute not used",
-    "no axioms: every property theorem is 'Closed under the global context' (checked by Print Assumptions on each run)",
+    "no axioms: every property theorem is 'Closed under the global context' (checked by Print Assumptions on each run); thorough tier: coqchk -o -silent re-checks the compiled property files with their dependencies and must report 'Axioms: <none>', no type-in-type, no unsafe fixpoints, no assumed positivity (result in coverage.coqchk)",
     "hand-written Gallina model of the Rust code; tied to /repo by the correspondence run (same inputs through model and implementation)",
     "Rust harness (generators, canonical printing of inputs/outputs as Coq terms) and tools/vlib.py (parsing coqc output)",
 ]
@@ -424,6 +457,10 @@ def standard_check(ctx, *, targets, pinned, binname, gen=None, classify=None, se
         for pr in problems:
             proof_ok = False
             violation(ctx, "audit: " + pr, {"stage": "audit", "problem": pr}, found_input=False)
+        if getattr(ctx, "tier", "quick") == "thorough" and not os.environ.get("VERIF_NO_COQCHK"):
+            for pr in coqchk(ctx, targets):
+                proof_ok = False
+                violation(ctx, "coqchk: " + pr, {"stage": "coqchk", "problem": pr}, found_input=False)
     ctx.coverage["theorems"] = names[-40:]
     ok, out = harness_build(ctx, binname)
     if not ok:
